@@ -386,7 +386,7 @@ func (p *BinaryProtocol) WriteMap(desc *proto.TypeDescriptor, val interface{}, c
 			p.AppendTag(1, MapKey.WireType())
 			p.WriteString(k)
 			p.AppendTag(2, MapValue.WireType())
-			p.WriteBaseTypeWithDesc(MapValue, v, cast, NeedMessageLen, disallowUnknown, useFieldName)
+			p.WriteBaseTypeWithDesc(MapValue, v, NeedMessageLen, cast, disallowUnknown, useFieldName)
 			p.Buf = FinishSpeculativeLength(p.Buf, pos)
 		}
 	} else if vs2 != nil {
